@@ -48,6 +48,11 @@ def lit_value(text):
     t = text.replace("_", "")
     if t.endswith("."):
         t = t + "0"
+    if "e" in t or "E" in t:
+        m, e = re.split("[eE]", t)
+        if m.endswith("."):
+            m += "0"
+        return Fraction(m) * Fraction(10) ** int(e)
     return Fraction(t)
 
 
